@@ -85,3 +85,13 @@ CHECKS['C16'] = ('exploration',
   'Every (language, model) cell (SEM, INH, OPS, GOPS, CLS languages and coreLang with the shipped example model) is generated through the direct API and through create_attack_graph from a .mar and from a .mal file, twice per process, with all cells in one process in both orders and with one fresh process per cell, under several PYTHONHASHSEED values; all serialised graphs of a cell must be identical, the model serialisation and the language specification must be unchanged by generation + attach + analysis, and two graphs built from one model must share no node.',
   'Trusted: the OS process boundary and sha256. The grid is finite and run completely; other hash seeds / languages are outside it.',
   'DESIGN.md 3/C16')
+CHECKS['C18'] = ('model_checking',
+  'every distinct model content reached by the history search is emitted through inverse translators (0.0.39 json/yaml, .sCAD) and loaded by the legacy loaders; normal-form equality with the native load',
+  'Every distinct model reached by bounded edit histories (id gaps, zero/negative/explicit ids, multi-member and duplicate-named associations incl. links between subtypes, several attackers with several entry points per asset) plus a decorated family is written in the 0.0.39 layout (json, yaml, nested and inline association fields) and as a .sCAD archive (both orientations of every association element) and loaded through the legacy loaders; assets with defenses, pairwise links and entry points must equal those of the native load.',
+  'Trusted: the two 40-line emitters (inverse of the loaders\' documented conventions, shaped after the shipped fixtures). Attacker names and model name are not compared for .sCAD.',
+  'DESIGN.md 3/C18')
+CHECKS['C19'] = ('model_checking',
+  'recording stand-in for the database driver; every reached model / attack-graph state exported and compared; import replayed under every permutation of the answer rows',
+  'py2neo.Graph is replaced by a recording stand-in that answers the two fixed Cypher queries with their Cypher meaning: for every distinct model reached by bounded edit histories (plus pairs linked by two association types, one type in both directions, self-links, same-named associations between subtypes) the created Subgraph must hold one node per asset and one relationship per direction of every linked pair labelled with the field name; get_model against what was exported must reconstruct the same assets and links under EVERY order of the answer rows; every attack-graph state of the C09 search is exported and compared node by node and edge by edge.',
+  'Trusted: py2neo Node/Relationship/Subgraph and the stand-in\'s reading of the two Cypher strings. Defense values and attackers are not exported by the library.',
+  'DESIGN.md 3/C19')
